@@ -22,8 +22,11 @@ fn allowed_map(sc: &HubSc, init: &BTreeMap<String, Vec<u8>>) -> BTreeMap<String,
     }
     for (ci, c) in sc.clients.iter().enumerate() {
         for (qi, q) in c.reqs.iter().enumerate() {
-            if let Req::Put { path, size, declared, .. } = q {
-                let body = put_body(ci, qi, (*size).max(24));
+            if let Req::Put { path, size, declared, shared_body, .. } = q {
+                let body = match shared_body {
+                    Some(t) => put_body(99, *t as usize, (*size).max(24)),
+                    None => put_body(ci, qi, (*size).max(24)),
+                };
                 if *declared == Declared::Valid || matches!(declared, Declared::ExcessBytes(_)) {
                     let h = b3(&body);
                     m.entry(path.clone()).or_default().insert(h);
